@@ -30,7 +30,7 @@ var c07Faults = []struct{ Point, Kind string }{
 	{"backend", "short-content-length"}, {"backend", "rst-mid-chunk"}, {"backend", "bad-chunk-size"}, {"backend", "one-byte-then-trailers"}, {"backend", "lying-content-encoding"},
 	{"backend-h2", "abort-before-headers"}, {"backend-h2", "abort-mid-body"}, {"backend-h2", "huge-headers"}, {"backend-h2", "slow-then-abort"},
 	{"upload", "500x3"}, {"upload", "404"}, {"upload", "reset-at-0"}, {"upload", "reset-at-4096"}, {"upload", "reset-at-end"}, {"upload", "stall"},
-	{"shim", "data-malformed-json"}, {"shim", "data-unknown-session"}, {"shim", "poll-unknown-session"}, {"shim", "close-unknown-session"}, {"shim", "open-backend-refuses-upgrade"}, {"shim", "open-slow-failure-overlapping-opens"}, {"shim", "malformed-data-on-live-session"}, {"shim", "backend-closes-session-normally"}, {"shim", "backend-closes-session-going-away"}, {"shim", "open-malformed-url"}, {"shim", "data-wrong-shape"},
+	{"shim", "data-malformed-json"}, {"shim", "data-unknown-session"}, {"shim", "poll-unknown-session"}, {"shim", "close-unknown-session"}, {"shim", "open-backend-refuses-upgrade"}, {"shim", "open-slow-failure-overlapping-opens"}, {"shim", "malformed-data-on-live-session"}, {"shim", "backend-closes-session-normally"}, {"shim", "backend-closes-session-going-away"}, {"shim", "open-malformed-url"}, {"shim", "data-wrong-shape"}, {"shim", "backend-stalls-then-closes-during-client-burst"}, {"shim", "backend-stalls-then-resets-during-client-burst"},
 }
 
 type c07Lane struct {
@@ -57,6 +57,7 @@ func C07(r *core.Run) {
 		{name: "plain", cfg: []string{"--proxy-timeout=3s"}},
 		{name: "h2", cfg: []string{"--proxy-timeout=3s", "--force-http2=true"}, h2: true},
 		{name: "full", cfg: []string{"--proxy-timeout=3s", "--shim-path=shim", "--shim-websockets=true", "--session-cookie-name=SID", "--disable-ssl-for-test=true", "--inject-banner=<b>banner</b>"}, shim: true, sess: true},
+		{name: "full+injection", cfg: []string{"--proxy-timeout=3s", "--shim-path=shim", "--shim-websockets=true", "--session-cookie-name=SID", "--disable-ssl-for-test=true", "--inject-banner=<b>banner</b>", "--enable-websockets-injection=true", "--rewrite-websocket-host=true"}, shim: true, sess: true},
 	}
 	reps := r.Pick(1, 4)
 	var wg sync.WaitGroup
@@ -373,7 +374,7 @@ func c07Lane_(r *core.Run, agentBin string, md *fakes.Metadata, li int, ln c07La
 		up, ok := px.Wait(id, 25*time.Second)
 		return up, ok && up.Resp != nil
 	}
-	var shimProbes int64
+	var shimProbes, stallBursts int64
 	if ln.shim {
 		for lane := 0; lane < 3; lane++ {
 			pwg.Add(1)
@@ -525,72 +526,128 @@ func c07Lane_(r *core.Run, agentBin string, md *fakes.Metadata, li int, ln c07La
 							fmt.Sprintf(`[{"id":%q,"msg":["a","b"]}]`, om.ID),
 							fmt.Sprintf(`[{"id":%q,"msg":12345}]`, om.ID),
 							fmt.Sprintf(`[{"id":%q}]`, om.ID),
+							fmt.Sprintf(`[{"id":%q,"msg":[123]}]`, om.ID),
+							fmt.Sprintf(`[{"id":%q,"msg":[null]}]`, om.ID),
+							fmt.Sprintf(`[{"id":%q,"msg":[[]]}]`, om.ID),
+							fmt.Sprintf(`[{"id":%q,"msg":[{"resource":{"headers":{}}}]}]`, om.ID),
+							fmt.Sprintf(`[{"id":%q,"msg":[]}]`, om.ID),
+							fmt.Sprintf(`[{"id":%q,"msg":null}]`, om.ID),
+							fmt.Sprintf(`[{"id":%q,"msg":true}]`, om.ID),
+							fmt.Sprintf(`[null,{"id":%q,"msg":"{\"resource\":{\"headers\":null}}"}]`, om.ID),
+							fmt.Sprintf(`[{"id":%q,"msg":"{\"resource\":{\"headers\":[1,2]}}"}]`, om.ID),
+							fmt.Sprintf(`[{"id":%q,"msg":"{\"resource\":7}"}]`, om.ID),
 						}
 						for k, bad := range bads {
 							shimCall(fmt.Sprintf("%s-bad%d", tag, k), "/shim/data", bad)
 							msg := fmt.Sprintf("after-bad-%d", k)
 							d, _ := json.Marshal([]map[string]interface{}{{"id": om.ID, "msg": msg}})
 							upd, okd := shimCall(fmt.Sprintf("%s-good%d", tag, k), "/shim/data", string(d))
+							// some of the odd data calls are legal messages and are echoed too: poll until the echo of the well-formed one arrives
 							var gotm []interface{}
-							upp, okp := shimCall(fmt.Sprintf("%s-poll%d", tag, k), "/shim/poll", fmt.Sprintf(`{"id":%q}`, om.ID))
-							if okp {
-								json.Unmarshal(upp.Resp.Body, &gotm)
+							okp, seenEcho := false, false
+							for pp := 0; pp < 3 && !seenEcho; pp++ {
+								upp, ok := shimCall(fmt.Sprintf("%s-poll%d-%d", tag, k, pp), "/shim/poll", fmt.Sprintf(`{"id":%q}`, om.ID))
+								okp = ok && upp.Resp.Status == 200
+								if !okp {
+									break
+								}
+								var part []interface{}
+								json.Unmarshal(upp.Resp.Body, &part)
+								gotm = append(gotm, part...)
+								for _, g := range part {
+									if g == "echo:"+tag+":"+msg {
+										seenEcho = true
+									}
+								}
 							}
-							if !okd || upd.Resp.Status != 200 || !okp || upp.Resp.Status != 200 || len(gotm) != 1 || gotm[0] != "echo:"+tag+":"+msg {
+							if !okd || upd.Resp.Status != 200 || !okp || !seenEcho {
 								r.Violate("C07:healthy-shim-session-disturbed:"+ln.name+":after-malformed-data", fmt.Sprintf("config %s: after the malformed data call %s on live session %s, a well-formed exchange on the same session failed (data ok=%v, poll ok=%v, got %v)", ln.name, bad, om.ID, okd, okp, gotm), nil, nil)
 								break
 							}
 						}
 						shimCall(tag+"-close", "/shim/close", fmt.Sprintf(`{"id":%q}`, om.ID))
 					}
-					r.Case(fmt.Sprintf("%s|%s|%s", ln.name, f.Point, f.Kind))
-					continue
-				}
-				switch f.Kind {
-				case "data-malformed-json":
-					path, body = "/shim/data", `[{"id": "1", "msg": `
-				case "data-unknown-session":
-					path, body = "/shim/data", `[{"id":"999999","msg":"hello"}]`
-				case "data-wrong-shape":
-					path, body = "/shim/data", `{"id":"1","msg":[1,2,3]}`
-				case "poll-unknown-session":
-					path, body = "/shim/poll", `{"id":"999999"}`
-				case "close-unknown-session":
-					path, body = "/shim/close", `{"id":"999999"}`
-				case "open-backend-refuses-upgrade":
-					path, body = "/shim/open", "ws://x/fault/close-before-headers/ws"
-				case "open-malformed-url":
-					path, body = "/shim/open", "http://[::1"
-				case "backend-closes-session-normally":
-					path, body = "/shim/open", "ws://x/ws/echo/close-now/a"
-				case "backend-closes-session-going-away":
-					path, body = "/shim/open", "ws://x/ws/echo/close-now/going-away/b"
-				case "open-slow-failure-overlapping-opens":
-					// the dial fails only after 150 ms, while the shim-session lanes keep opening sessions
-					path, body = "/shim/open", "ws://x/fault/slow-close/ws"
-				}
-				var w rawhttp.Builder
-				w.Line("POST "+path+" HTTP/1.1").Field("Host", "c07.example").Field("Content-Length", fmt.Sprint(len(body))).End()
-				w.WriteString(body)
-				px.Enqueue(id, w.Bytes(), "")
-				if f.Kind == "open-slow-failure-overlapping-opens" {
-					// several slow failures in a row, so that sessions opened by the healthy lanes overlap some of them
-					for k := 0; k < 8; k++ {
-						time.Sleep(40 * time.Millisecond)
-						px.Enqueue(fmt.Sprintf("%s-%d", id, k), w.Bytes(), "")
+				} else if strings.HasPrefix(f.Kind, "backend-stalls-then-") {
+					// The backend stops reading, so the messages of a client burst back up in the session's writer;
+					// then the backend ends the session (close frame or reset) while those writes are still pending.
+					tag := fmt.Sprintf("stall%d-%d", li, inj)
+					how := "stall-then-close"
+					if strings.Contains(f.Kind, "resets") {
+						how = "stall-then-reset"
 					}
-					time.Sleep(400 * time.Millisecond)
-				}
-				up, got = px.Wait(id, 5*time.Second)
-				if strings.HasPrefix(f.Kind, "backend-closes-session") && got && up.Resp != nil && up.Resp.Status == 200 {
-					var om struct {
-						ID string `json:"id"`
+					upo, ok := shimCall(tag+"-open", "/shim/open", "ws://x/ws/echo/"+how+"/"+tag, rawhttp.Field{Name: "X-Websocket-Shim-Version", Value: "1"})
+					if ok && upo.Resp.Status == 200 {
+						var om struct {
+							ID string `json:"id"`
+						}
+						json.Unmarshal(upo.Resp.Body, &om)
+						big := strings.Repeat("x", 1<<20)
+						var bwg sync.WaitGroup
+						for k := 0; k < 3; k++ {
+							var msgs []map[string]interface{}
+							for q := 0; q < 4; q++ {
+								msgs = append(msgs, map[string]interface{}{"id": om.ID, "msg": big})
+							}
+							d, _ := json.Marshal(msgs)
+							bwg.Add(1)
+							go func(k int, d []byte) {
+								defer bwg.Done()
+								shimCall(fmt.Sprintf("%s-burst%d", tag, k), "/shim/data", string(d))
+							}(k, d)
+							time.Sleep(30 * time.Millisecond)
+						}
+						bwg.Wait()
+						shimCall(tag+"-poll", "/shim/poll", fmt.Sprintf(`{"id":%q}`, om.ID))
+						shimCall(tag+"-close", "/shim/close", fmt.Sprintf(`{"id":%q}`, om.ID))
+						atomic.AddInt64(&stallBursts, 1)
 					}
-					json.Unmarshal(up.Resp.Body, &om)
-					for k := 0; k < 3; k++ {
-						shimCall(fmt.Sprintf("%s-poll%d", id, k), "/shim/poll", fmt.Sprintf(`{"id":%q}`, om.ID))
+				} else {
+					switch f.Kind {
+					case "data-malformed-json":
+						path, body = "/shim/data", `[{"id": "1", "msg": `
+					case "data-unknown-session":
+						path, body = "/shim/data", `[{"id":"999999","msg":"hello"}]`
+					case "data-wrong-shape":
+						path, body = "/shim/data", `{"id":"1","msg":[1,2,3]}`
+					case "poll-unknown-session":
+						path, body = "/shim/poll", `{"id":"999999"}`
+					case "close-unknown-session":
+						path, body = "/shim/close", `{"id":"999999"}`
+					case "open-backend-refuses-upgrade":
+						path, body = "/shim/open", "ws://x/fault/close-before-headers/ws"
+					case "open-malformed-url":
+						path, body = "/shim/open", "http://[::1"
+					case "backend-closes-session-normally":
+						path, body = "/shim/open", "ws://x/ws/echo/close-now/a"
+					case "backend-closes-session-going-away":
+						path, body = "/shim/open", "ws://x/ws/echo/close-now/going-away/b"
+					case "open-slow-failure-overlapping-opens":
+						// the dial fails only after 150 ms, while the shim-session lanes keep opening sessions
+						path, body = "/shim/open", "ws://x/fault/slow-close/ws"
 					}
-					time.Sleep(300 * time.Millisecond)
+					var w rawhttp.Builder
+					w.Line("POST "+path+" HTTP/1.1").Field("Host", "c07.example").Field("Content-Length", fmt.Sprint(len(body))).End()
+					w.WriteString(body)
+					px.Enqueue(id, w.Bytes(), "")
+					if f.Kind == "open-slow-failure-overlapping-opens" {
+						// several slow failures in a row, so that sessions opened by the healthy lanes overlap some of them
+						for k := 0; k < 8; k++ {
+							time.Sleep(40 * time.Millisecond)
+							px.Enqueue(fmt.Sprintf("%s-%d", id, k), w.Bytes(), "")
+						}
+						time.Sleep(400 * time.Millisecond)
+					}
+					up, got = px.Wait(id, 5*time.Second)
+					if strings.HasPrefix(f.Kind, "backend-closes-session") && got && up.Resp != nil && up.Resp.Status == 200 {
+						var om struct {
+							ID string `json:"id"`
+						}
+						json.Unmarshal(up.Resp.Body, &om)
+						for k := 0; k < 3; k++ {
+							shimCall(fmt.Sprintf("%s-poll%d", id, k), "/shim/poll", fmt.Sprintf(`{"id":%q}`, om.ID))
+						}
+						time.Sleep(300 * time.Millisecond)
+					}
 				}
 			}
 			if got && up != nil && up.Resp != nil {
@@ -639,6 +696,7 @@ func c07Lane_(r *core.Run, agentBin string, md *fakes.Metadata, li int, ln c07La
 	}
 	r.Add("healthy_probes", int(atomic.LoadInt64(&probes)))
 	r.Add("healthy_shim_sessions", int(atomic.LoadInt64(&shimProbes)))
+	r.Add("client_bursts_into_stalled_then_closed_sessions", int(atomic.LoadInt64(&stallBursts)))
 	r.Add("fault_injections", inj)
 	r.Set("statuses_of_faulty_requests_"+ln.name, statusSeen)
 	r.Sample(map[string]interface{}{"config": ln.name, "injections": inj, "probes": atomic.LoadInt64(&probes), "probe_failures": atomic.LoadInt64(&probeFails)})
